@@ -59,6 +59,11 @@ type Config struct {
 	RetentionEnabled   bool   `json:"retention_enabled"`
 	UseStore           bool   `json:"use_store"`
 	VerifyCompaction   bool   `json:"verify_compaction"`
+	// Prefill rows (payload PageSize/8 bytes each) are inserted when the database is created, so that the table
+	// spans several leaf pages from the start: an update of the first row, an insert at the end and litestream's
+	// bookkeeping then touch DIFFERENT pages, and a lost page version cannot be masked by a later write that
+	// happens to rewrite the same page. 0 in replay files recorded before the field existed.
+	Prefill int `json:"prefill"`
 }
 
 // DefaultConfig returns the baseline configuration used by most checks.
@@ -74,6 +79,7 @@ func DefaultConfig() Config {
 		L0RetentionNS:      1,
 		RetentionEnabled:   true,
 		UseStore:           true,
+		Prefill:            24,
 	}
 }
 
@@ -282,6 +288,19 @@ func (s *Scn) appOpen(create bool) error {
 		}
 		if _, err := w.ExecContext(ctx, "INSERT INTO t (v) VALUES ('seed')"); err != nil {
 			return err
+		}
+		if s.Cfg.Prefill > 0 {
+			if _, err := w.ExecContext(ctx, "BEGIN"); err != nil {
+				return err
+			}
+			for i := 0; i < s.Cfg.Prefill; i++ {
+				if _, err := w.ExecContext(ctx, "INSERT INTO t (v) VALUES (?)", pay(900000+i, s.Cfg.PageSize/8)); err != nil {
+					return err
+				}
+			}
+			if _, err := w.ExecContext(ctx, "COMMIT"); err != nil {
+				return err
+			}
 		}
 		var ps int
 		if err := w.QueryRowContext(ctx, "PRAGMA page_size").Scan(&ps); err != nil {
